@@ -667,6 +667,35 @@ def algebra_zero(d, budget_s=20, cheap=False) -> bool:
     return False
 
 
+def abstract_free(exprs, keep):
+    """replace every maximal sub-term that contains none of the `keep` symbols (and is not a number)
+    by a fresh real symbol, consistently over all exprs.  Sound for proving: a formula valid for
+    all values of the fresh symbols is valid for the terms they stand for."""
+    keep = set(keep)
+    table = {}
+
+    def rec(e):
+        if not isinstance(e, sp.Basic):
+            return e
+        if e.is_number or e is sp.true or e is sp.false:
+            return e
+        if not (e.free_symbols & keep):
+            if isinstance(e, sp.Symbol):
+                return e
+            if isbool(e):
+                if e not in table:
+                    table[e] = sp.Ne(sp.Symbol("abs!b%d" % len(table), real=True), 0)
+                return table[e]
+            if e not in table:
+                table[e] = sp.Symbol("abs!%d" % len(table), real=True)
+            return table[e]
+        if not e.args:
+            return e
+        return e.func(*[rec(a) for a in e.args])
+
+    return [rec(e) for e in exprs], table
+
+
 def ring_zero(d, extra_relations=()):
     """ring back end (DESIGN 2.4): is d == 0 in the polynomial ring generated by the sin/cos pairs
     (s^2 + c^2 = 1), the square roots (w^2 = radicand) and all other non-polynomial atoms taken
